@@ -95,7 +95,7 @@ def fam_ops(tier, seed):
         n_d1, n_d2, maxlen = 70, 60, 3
     else:
         exprs = ops_exprs(3, rnd, 3000)
-        n_d1, n_d2, maxlen = 308, 1200, 4
+        n_d1, n_d2, maxlen = 308, 800, 4
     atoms = exprs[:11]
     d1 = exprs[11:11 + 55 + 242]
     deeper = exprs[11 + 55 + 242:]
@@ -123,7 +123,7 @@ def fam_ops(tier, seed):
         hand.append(("prefix_choice3_%s" % tn, (lambda tf=tf: Seq(Choice(Seq(Lit("a"), tf()), Seq(Lit("ab"), tf()), Lit("abb")), Opt(Lit("b"))))))
         hand.append(("prefix_choice_in_clo_%s" % tn, (lambda tf=tf: Seq(Clo(Choice(Seq(Lit("a"), tf()), Lit("ab"))), Opt(Lit("b"))))))
     # every nesting unary(binary(unary(atom), atom)) / binary(unary(binary(atom, atom)), atom) over three atoms:
-    # all of them in the thorough tier, a seeded sample in the quick tier
+    # a seeded sample (400 in the thorough tier, 70 in the quick tier: other ones for every VERIF_SEED)
     small = [("a", lambda: Lit("a")), ("ab", lambda: Lit("ab")), ("eoi", lambda: Eoi())]
     nest3 = []
     for (o1, f1), (ob, fb), (o2, f2) in itertools.product(UNARY, BINARY, UNARY):
@@ -135,7 +135,7 @@ def fam_ops(tier, seed):
                 nm = "n3_%s(%s(%s_%s_%s),%s)%s" % (ob, o1, ob, an, bn, an, "r" if swap else "")
                 nest3.append((nm, (lambda f1=f1, fb=fb, af=af, bf=bf, swap=swap:
                                    fb(af(), f1(fb(af(), bf()))) if swap else fb(f1(fb(af(), bf())), af()))))
-    hand += nest3 if tier != "quick" else rnd.sample(nest3, 70)
+    hand += rnd.sample(nest3, 400 if tier != "quick" else 70)    # (all of them: 3600 grammars, an hour per check that uses F-ops)
     chosen = list(atoms) + hand + (uu if tier != "quick" else uu[::2] + uu[1::4])
     chosen += d1 if n_d1 >= len(d1) else (d1[:55] + rnd.sample(d1[55:], n_d1 - 55) if n_d1 > 55 else rnd.sample(d1, n_d1))
     rnd.shuffle(deeper)
